@@ -56,7 +56,7 @@ PROPS = {
                         CLOUDM + "SmartHomeCloud._Security.encrypt_iam_password#derivation",
                         "msmart.lan.Security.udpid", DISCM + "Discover._authenticate_device"],
             "level": "proof"},
-    "C17": {"targets": [DISCM + "Discover.discover_single", DISCM + "_DiscoverProtocol.__init__", DISCM + "Discover._get_device_version", DISCM + "Discover._get_device_info#wellformed", DISCM + "Discover._get_device_class",
+    "C17": {"targets": [DISCM + "Discover.discover_single", DISCM + "_DiscoverProtocol.__init__", DISCM + "_DiscoverProtocol.datagram_received", DISCM + "Discover._get_device_version", DISCM + "Discover._get_device_info#wellformed", DISCM + "Discover._get_device_class",
                         DISCM + "Discover._get_device", DISCM + "Discover._get_device#wellformed", DISCM + "_DiscoverProtocol._send_discovery", "C17.discovery_probe_is_pinned"] + GETTERS["C17"],
             "level": "proof"},
     "C18": {"targets": [DISCM + "_DiscoverProtocol.__init__", DISCM + "_DiscoverProtocol.datagram_received", DISCM + "Discover._get_device", DISCM + "Discover._get_device_info",
@@ -117,6 +117,6 @@ PROPS = {
                         AC + ".rate_select!setter", AC + ".horizontal_swing_angle!setter", AC + ".vertical_swing_angle!setter",
                         CMD + "SetPropertiesCommand.__init__", CMD + "SetPropertiesCommand.tobytes",
                         (AC + ".apply", r"c16\.|noraise|call\."), AC + ".apply#quiet_device", AC + "._apply_properties", AC + ".start_self_clean",
-                        (AC + "._update_capabilities", r"props\.|noraise"), AC + "._update_state#props"] + GETTERS["C16"],
+                        (AC + "._update_capabilities", r"props\.|noraise"), AC + "._update_state#props", (AC + ".refresh", r"whole_response|noraise|call\.")] + GETTERS["C16"],
             "level": "proof"},
 }
